@@ -222,6 +222,31 @@ func Guard(f func()) (panicked bool, msg string) {
 	return p, m
 }
 
+// GuardReturns is Guard for a call that may never return (a numerical loop whose exit test can no
+// longer become true): f runs in its own goroutine and is given d of wall clock.  d must be many orders
+// of magnitude above the cost of the call (a function of microseconds gets tens of seconds), so that
+// returned=false means "does not return", not "was slow"; the goroutine is left behind (it cannot be
+// stopped) and ends with the worker process.
+func GuardReturns(f func(), d time.Duration) (returned, panicked bool, msg string) {
+	type res struct {
+		p bool
+		m string
+	}
+	done := make(chan res, 1)
+	go func() {
+		p, m := Guard(f)
+		done <- res{p, m}
+	}()
+	t := time.NewTimer(d)
+	defer t.Stop()
+	select {
+	case r := <-done:
+		return true, r.p, r.m
+	case <-t.C:
+		return false, false, ""
+	}
+}
+
 // GuardExit is Guard that additionally recognises the sentinel raised by the
 // instrumented os.Exit (io.ExitWithMessage inside library code): exited=true
 // means "the library reported an explicit error and asked to exit".
